@@ -3,12 +3,12 @@
 //! --keep-going` gives one verdict per chain, and both directions are checked — legal chains
 //! must compile, illegal ones must fail for the expected reason.
 
-use serde::Serialize;
+use serde::{Deserialize, Serialize};
 use vcore::{CaseInfo, Ctx, SubReport};
 
 use crate::driver::{GenCase, Project};
 
-#[derive(Clone, Copy, Debug, PartialEq, Eq, Hash, Serialize)]
+#[derive(Clone, Copy, Debug, PartialEq, Eq, Hash, Serialize, Deserialize)]
 pub enum Entry {
     SomeCall,
     NextCall,
@@ -16,7 +16,7 @@ pub enum Entry {
     StubCall,
 }
 
-#[derive(Clone, Copy, Debug, PartialEq, Eq, Hash, Serialize)]
+#[derive(Clone, Copy, Debug, PartialEq, Eq, Hash, Serialize, Deserialize)]
 pub enum Val {
     /// u32
     CloneVal,
@@ -30,13 +30,13 @@ pub enum Val {
     MixedTupleClone,
 }
 
-#[derive(Clone, Copy, Debug, PartialEq, Eq, Hash, Serialize)]
+#[derive(Clone, Copy, Debug, PartialEq, Eq, Hash, Serialize, Deserialize)]
 pub enum Resp {
     Returns(Val),
     Answers,
 }
 
-#[derive(Clone, Copy, Debug, PartialEq, Eq, Hash, Serialize)]
+#[derive(Clone, Copy, Debug, PartialEq, Eq, Hash, Serialize, Deserialize)]
 pub enum Quant {
     None,
     Once,
@@ -44,7 +44,7 @@ pub enum Quant {
     AtLeast,
 }
 
-#[derive(Clone, Debug, PartialEq, Eq, Hash, Serialize)]
+#[derive(Clone, Debug, PartialEq, Eq, Hash, Serialize, Deserialize)]
 pub struct Chain {
     pub entry: Entry,
     /// segments joined by then()
@@ -335,4 +335,20 @@ pub fn run(ctx: &Ctx, which: &str) -> SubReport {
         }
     }
     rep
+}
+
+/// Replay of one saved chain: rustc's verdict on it against the type-level model.
+pub fn replay(which: &str, case: serde_json::Value) -> Result<(), String> {
+    let chain: Chain = serde_json::from_value(case).map_err(|e| format!("HARNESS: bad case: {e}"))?;
+    let project = Project::new(&format!("{which}-cfail-replay"), PRELUDE);
+    let cases = vec![GenCase { id: 0, source: chain.source() }];
+    let verdicts = project.check_each(&cases).map_err(|e| format!("HARNESS: {e}"))?;
+    let src = chain.source();
+    let line = src.lines().nth(1).unwrap_or("").trim().to_string();
+    match (chain.expect(), &verdicts[&0]) {
+        (Expect::Compiles, Ok(())) => Ok(()),
+        (Expect::Compiles, Err(d)) => Err(format!("HARNESS: a legal chain does not compile: `{line}`: {}", d.lines().take(4).collect::<Vec<_>>().join(" / "))),
+        (Expect::Fails(..), Ok(())) => Err(format!("the builder accepts `{line}`, which must not type-check")),
+        (Expect::Fails(..), Err(_)) => Ok(()),
+    }
 }
